@@ -15,6 +15,8 @@ CONSTANTS
   SetOps = {}
   MatchSets = {}
   GroupIncs = {}
+  IgnEmpty = FALSE
+  DupLabels = FALSE
   Fixes = {}
   DBSeries = 0
   DBA = {}
